@@ -141,11 +141,11 @@ func (h *vC09Harness) gate(key string) {
 const vC09Prefix = "c09"
 const vC09UserXattr = "c09ux"
 
-func vC09NewHarness(t *testing.T) *vC09Harness {
+func vC09NewHarness(t *testing.T, allowConflicts bool) *vC09Harness {
 	h := &vC09Harness{t: t, events: make(chan string, 8), seenF: map[string]bool{}, seenX: map[string]bool{}}
 	tb := base.GetTestBucket(t)
 	lb := base.NewLeakyBucket(tb, base.LeakyBucketConfig{UpdateCallback: h.gate})
-	h.db, h.ctx = SetupTestDBForBucketWithOptions(t, lb, DatabaseContextOptions{AllowConflicts: base.Ptr(false), UserXattrKey: vC09UserXattr})
+	h.db, h.ctx = SetupTestDBForBucketWithOptions(t, lb, DatabaseContextOptions{AllowConflicts: base.Ptr(allowConflicts), UserXattrKey: vC09UserXattr})
 	col, ctx := GetSingleDatabaseCollectionWithUser(h.ctx, t, h.db)
 	h.ctx = ctx
 	h.col = &DatabaseCollectionWithUser{DatabaseCollection: col.DatabaseCollection} // admin
@@ -577,6 +577,26 @@ func (h *vC09Harness) step(a string, i int) string {
 	h.out = vObj{}
 	h.mu.Unlock()
 	switch a {
+	case "Conflict":
+		// conflicts-allowed family: revision 1-a and two children; 2-zzz wins the revision-id comparison, 2-aaa loses;
+		// i = 1: the winner is pushed last (newest revision = winner), i = 0: the loser is pushed last
+		order := []string{"2-zzz", "2-aaa"}
+		if i == 1 {
+			order = []string{"2-aaa", "2-zzz"}
+		}
+		ids := map[string]int{"1-a": 91, "2-aaa": 92, "2-zzz": 93}
+		for rev, k := range ids {
+			h.revBody[rev] = 100 + k
+			h.crcID[base.Crc32cHashString(vC09SGBody(k))] = 100 + k
+		}
+		if _, _, err := h.col.PutExistingRevWithBody(h.ctx, h.key, Body{"s": 91}, []string{"1-a"}, false, ExistingVersionWithUpdateToHLV); err != nil {
+			return "Conflict: " + err.Error()
+		}
+		for _, rev := range order {
+			if _, _, err := h.col.PutExistingRevWithBody(h.ctx, h.key, Body{"s": ids[rev]}, []string{rev, "1-a"}, false, ExistingVersionWithUpdateToHLV); err != nil {
+				return "Conflict: " + err.Error()
+			}
+		}
 	case "ExtSet":
 		if i > h.nExtB {
 			h.nExtB = i
@@ -781,11 +801,17 @@ func TestVerif_C09_Import(t *testing.T) {
 	tw := vOpenTrace(t, "VERIF_TRACE_OUT")
 	defer tw.Close()
 	defer SuspendSequenceBatching()()
-	h := vC09NewHarness(t)
-	defer h.db.Close(h.ctx)
+	// two databases: conflicts disallowed (the main families) and allowed (behaviours that start with Conflict)
+	hs := map[bool]*vC09Harness{}
 	aborted := 0
 	for bi, b := range behs {
-		if h.replay(tw, bi, b) {
+		cf := len(b.Steps) > 0 && b.Steps[0].A == "Conflict"
+		if hs[cf] == nil {
+			h := vC09NewHarness(t, cf)
+			defer h.db.Close(h.ctx)
+			hs[cf] = h
+		}
+		if hs[cf].replay(tw, bi, b) {
 			aborted++
 		}
 	}
